@@ -200,21 +200,31 @@ def run(tier, seed, replay=None):
         if w.err:
             chk.note_drift(f"trace {tid} ({origin}): real run raised {w.err}")
 
+    import time as _t
+    t0 = _t.time()
+    phases = {}
     scheds = model_schedules(chk, tier)
+    phases["enumerate_schedules"] = round(_t.time() - t0, 1)
     chk.extra["model_schedules_total"] = len(scheds)
-    cap = 150 if tier == "quick" else 4000
+    cap = 120 if tier == "quick" else 4000
     chosen = scheds if len(scheds) <= cap else rng.sample(scheds, cap)
     chk.exhaustive = len(chosen) == len(scheds)
     for i, (origin, sch) in enumerate(chosen):
         execute(sch, origin, W.TICKS[i % len(W.TICKS)], "control" if i % 3 == 2 else "fast")
         chk.replays += 1
-    n_rand = 150 if tier == "quick" else 4000
+    n_rand = 120 if tier == "quick" else 4000
     for i in range(n_rand):
         execute(W.random_schedule(rng), "random", W.TICKS[i % len(W.TICKS)], "control" if i % 4 == 3 else "fast")
 
+    phases["real_runs"] = round(_t.time() - t0 - phases["enumerate_schedules"], 1)
+    t1 = _t.time()
     verdicts, keys, counts = judge(chk, traces, meta)
+    phases["trace_validation"] = round(_t.time() - t1, 1)
+    t1 = _t.time()
     mc_future.result()
     bg.shutdown()
+    phases["waiting_for_model_check"] = round(_t.time() - t1, 1)
+    chk.extra["phase_wall_s"] = phases
     chk.impl_traces = len(traces)
     chk.extra["contract_keys_seen"] = counts
     chk.extra["accepted_traces"] = sum(1 for v in verdicts.values() if v[0] == "ACCEPT")
